@@ -1049,3 +1049,242 @@ def lock_regions(fn):
             r.end_blocks = ends
         out.append(r)
     return out
+
+
+# ---------------------------------------------------------------- R7 taint (untrusted wire integers)
+
+TAINT_SOURCES = ['u64::from_be_bytes', 'u32::from_be_bytes', 'u16::from_be_bytes', 'usize::from_be_bytes',
+                 'u64::from_le_bytes', 'u32::from_le_bytes', 'u16::from_le_bytes', 'usize::from_le_bytes',
+                 'u128::from_be_bytes', 'i64::from_be_bytes']
+ALLOC_SINKS = ['std::vec::Vec::with_capacity', 'std::vec::from_elem', 'std::vec::Vec::reserve', 'std::vec::Vec::reserve_exact',
+               'std::string::String::with_capacity', 'std::vec::Vec::resize', 'std::collections::vec_deque::VecDeque::with_capacity',
+               'std::collections::hash::map::HashMap::with_capacity', 'std::boxed::Box::new_uninit_slice']
+RAW_ARITH = {'Add', 'Sub', 'Mul', 'Shl', 'AddWithOverflow', 'SubWithOverflow', 'MulWithOverflow', 'AddUnchecked', 'Shr', 'Div', 'Rem'}
+ARITH_CALLS = ['usize::next_power_of_two', 'u64::next_power_of_two', 'usize::pow', 'u64::pow', 'usize::wrapping_add',
+               'usize::wrapping_mul', 'usize::unchecked_add']
+INDEX_SINKS = ['std::ops::index::Index::index', 'std::ops::index::IndexMut::index_mut', '<* as std::ops::index::Index>::index',
+               '<* as std::ops::index::IndexMut>::index_mut', '[T]::split_at', '[T]::split_at_mut', '[T]::copy_within']
+# calls that return a *validated* value: the result is no longer a raw wire integer
+SANITISERS = ['usize::checked_add', 'usize::checked_mul', 'usize::checked_sub', 'u64::checked_add', 'u64::checked_mul',
+              'u64::checked_sub', 'usize::saturating_add', 'usize::saturating_mul', 'usize::saturating_sub',
+              'usize::checked_next_power_of_two', 'u64::saturating_sub', 'u64::saturating_add', 'usize::min', 'std::cmp::min',
+              'std::cmp::Ord::min', '<usize as std::cmp::Ord>::min', 'usize::checked_shl', 'usize::checked_pow']
+# calls through which taint does not propagate (they produce decoded *data*, not lengths)
+TAINT_STOP = ['[T]::get', '<* as std::slice::index::SliceIndex>::get', '[T]::len', 'std::vec::Vec::len',
+              'std::vec::Vec::push', '[T]::to_vec', '[T]::copy_from_slice', '[T]::first', '[T]::chunks_exact']
+
+
+SOURCE_BITS = {'u16': 16, 'u32': 32, 'u64': 64, 'usize': 64, 'u128': 128, 'i64': 64}
+
+
+def wire_int_findings(fn):
+    """R7 over one body, flow-sensitive (forward may-analysis over the success-path CFG).
+    Abstract value of a local: the maximal number of significant bits of a wire integer it may hold
+    (0 = not derived from a wire integer).  from_{be,le}_bytes of uN gives N bits; copies/casts keep the
+    width (a cast to a narrower type truncates); a+b gives max+1, a*b the sum, a<<b 128.  A finding is raw
+    arithmetic whose result may need more than 63 bits (usize of the analysed 64-bit target), an allocation
+    sized by a value of more than 16 bits, or a panicking index/split with any wire-derived value.
+    checked_*/saturating_* results keep their operands' width capped at 63 (they cannot wrap)."""
+    body = fn.body
+    nb = len(body.blocks)
+    # sources
+    has_src = any(any(match_any(TAINT_SOURCES, n) for n in c.names()) for c in body.calls())
+    if not has_src:
+        return [], 0
+    IN = [dict() for _ in range(nb)]
+    findings = {}
+    ever = set()
+
+    def val(st, o):
+        if o[0] in ('copy', 'move'):
+            return st.get(o[1][0], 0)
+        return 0
+
+    def width_of(ty):
+        return {'u8': 8, 'u16': 16, 'u32': 32, 'u64': 64, 'usize': 64, 'u128': 128, 'i64': 64, 'i32': 32, 'isize': 64}.get(ty)
+
+    def transfer(bi, st, record):
+        st = dict(st)
+        b = body.blocks[bi]
+        for (line, pl, rv) in b.stmts:
+            k = rv[0]
+            v = 0
+            if k in ('use', 'rep'):
+                v = val(st, rv[1])
+            elif k in ('ref', 'cfd', 'ptr'):
+                v = st.get(rv[1][0], 0)
+            elif k == 'cast':
+                v = val(st, rv[2])
+                w = width_of(rv[3])
+                if v and w:
+                    v = min(v, w)
+            elif k == 'un':
+                v = val(st, rv[2])
+            elif k == 'bin':
+                x, y = val(st, rv[2]), val(st, rv[3])
+                op = rv[1]
+                if x or y:
+                    if op in ('Add', 'AddWithOverflow', 'AddUnchecked'):
+                        v = max(x, y) + 1
+                    elif op in ('Sub', 'SubWithOverflow'):
+                        v = max(x, y, 64) if record is not None else max(x, y)
+                        v = max(x, y)
+                    elif op in ('Mul', 'MulWithOverflow'):
+                        cx = body.const_of(rv[2]) if not x else None
+                        cy = body.const_of(rv[3]) if not y else None
+                        c = cx if cx is not None else cy
+                        v = (x or y) + (c.bit_length() if c is not None else 64) if not (x and y) else x + y
+                    elif op in ('Shl',):
+                        v = 128
+                    elif op in ('Div', 'Rem', 'Shr', 'BitAnd'):
+                        v = max(x, y)
+                    elif op in ('Eq', 'Ne', 'Lt', 'Le', 'Gt', 'Ge', 'Cmp'):
+                        v = 0
+                    else:
+                        v = max(x, y)
+                    if record is not None and op in RAW_ARITH and op not in ('Div', 'Rem', 'Shr'):
+                        tyd = body.lty(pl[0])
+                        over = v > 63 or (op.startswith('Sub') and max(x, y) > 0 and False)
+                        if op.startswith('Sub'):
+                            # a - b underflows whenever b may exceed a: any wire-derived subtrahend
+                            over = y > 0 or x > 63
+                        if over and _is_int(tyd.replace('(', '').split(',')[0]):
+                            record[('arith', op.replace('WithOverflow', ''), line, bi)] = 1
+            elif k == 'agg':
+                v = max([val(st, o) for o in rv[5]] or [0])
+                if rv[1] == 'adt' and rv[2] and not rv[2].startswith('std::ops::range::') and \
+                        not rv[2].startswith('std::option::') and not rv[2].startswith('std::result::'):
+                    v = 0
+            elif k == 'discr':
+                v = 0
+            if not pl[1]:
+                if v:
+                    st[pl[0]] = v
+                    ever.add(pl[0])
+                else:
+                    st.pop(pl[0], None)
+            elif v:
+                st[pl[0]] = max(st.get(pl[0], 0), v)
+                ever.add(pl[0])
+        t = b.term
+        if t[0] == 'call':
+            c = t[1]
+            names = c.names()
+            args = [val(st, a) for a in c.args]
+            mx = max(args or [0])
+            v = 0
+            src = [n for n in names if match_any(TAINT_SOURCES, n)]
+            if src:
+                v = SOURCE_BITS.get(src[0].split('::')[0], 64)
+            elif any(match_any(TAINT_STOP, n) for n in names):
+                v = 0
+            elif any(match_any(SANITISERS, n) for n in names):
+                v = min(mx, 63) if mx else 0
+            elif mx and _int_carrier(body.lty(c.dest[0])):
+                v = mx
+                if any(glob_match('*::try_from', n) or glob_match('*TryFrom>::try_from', n) or glob_match('*::try_into', n) for n in names):
+                    v = mx
+            if record is not None and mx:
+                if any(match_any(ALLOC_SINKS, n) for n in names) and mx > 16:
+                    record[('alloc', c.best(), c.line, bi)] = 1
+                elif any(match_any(ARITH_CALLS, n) for n in names) and mx > 32:
+                    record[('arith', c.best(), c.line, bi)] = 1
+                elif any(match_any(INDEX_SINKS, n) for n in names):
+                    record[('index', c.best(), c.line, bi)] = 1
+            if not c.dest[1]:
+                if v:
+                    st[c.dest[0]] = v
+                    ever.add(c.dest[0])
+                else:
+                    st.pop(c.dest[0], None)
+        return st
+
+    # fixpoint
+    work = deque([0])
+    seen_once = set()
+    it = 0
+    while work and it < 20000:
+        it += 1
+        bi = work.popleft()
+        if body.blocks[bi].cleanup:
+            continue
+        out = transfer(bi, IN[bi], None)
+        for s in body.succ(bi):
+            changed = s not in seen_once
+            seen_once.add(s)
+            cur = IN[s]
+            for l, v in out.items():
+                if cur.get(l, 0) < v:
+                    cur[l] = min(v, 256)
+                    changed = True
+            if changed:
+                work.append(s)
+    rec = {}
+    for bi in range(nb):
+        if body.blocks[bi].cleanup or (bi != 0 and bi not in seen_once):
+            continue
+        transfer(bi, IN[bi], rec)
+    return sorted(rec.keys(), key=lambda x: (x[2], x[0], x[1])), len(ever)
+
+
+def _is_int(ty):
+    return ty in ('usize', 'u64', 'u32', 'u16', 'u8', 'u128', 'i64', 'i32', 'isize', '(usize, bool)', '(u64, bool)', '(u32, bool)')
+
+
+def _int_carrier(ty):
+    t = strip_refs(ty)
+    if _is_int(t):
+        return True
+    for head in ('std::option::Option<', 'std::result::Result<', 'std::ops::control_flow::ControlFlow<', 'std::ops::range::Range<',
+                 'std::ops::range::RangeInclusive<', 'std::ops::range::RangeFrom<', 'std::ops::range::RangeTo<'):
+        if t.startswith(head):
+            inner = t[len(head):]
+            return inner.startswith(('usize', 'u64', 'u32', 'u16', 'std::convert::Infallible, usize', 'std::convert::Infallible, u64',
+                                     'std::result::Result<std::convert::Infallible', 'std::option::Option<std::convert::Infallible'))
+    return False
+
+
+# ---------------------------------------------------------------- R8 panic inventory
+
+PANIC_CALLS = [
+    'std::option::Option::unwrap', 'std::option::Option::expect', 'std::result::Result::unwrap', 'std::result::Result::expect',
+    'std::result::Result::unwrap_err', 'std::result::Result::expect_err',
+    'std::ops::index::Index::index', 'std::ops::index::IndexMut::index_mut', '<* as std::ops::index::Index>::index',
+    '<* as std::ops::index::IndexMut>::index_mut', '[T]::copy_from_slice', '[T]::split_at', '[T]::split_at_mut',
+    'std::vec::Vec::remove', 'std::vec::Vec::swap_remove', 'std::vec::Vec::insert', 'std::vec::Vec::drain', 'std::vec::Vec::split_off',
+    'std::panicking::begin_panic', 'std::panicking::panic_fmt', 'std::panicking::panic', 'std::rt::panic_fmt',
+    'std::panicking::unreachable_display', 'std::panicking::panic_explicit', 'std::panicking::assert_failed',
+    'std::slice::<impl [T]>::copy_from_slice', '[T]::clone_from_slice', 'std::convert::TryInto::try_into',
+]
+
+
+def panic_sites(fn):
+    """(kind, what, ordinal, line) for every panic-capable site of one body (success-path CFG)."""
+    body = fn.body
+    out = []
+    counts = defaultdict(int)
+    live = body.reach([0])
+    for bi, b in enumerate(body.blocks):
+        if b.cleanup or bi not in live:
+            continue
+        t = b.term
+        if t[0] == 'assert':
+            k = t[3]
+            counts[('assert', k)] += 1
+            out.append(('assert', k, counts[('assert', k)], t[6], bi))
+        elif t[0] == 'call':
+            c = t[1]
+            for n in c.names():
+                hit = None
+                for p in PANIC_CALLS:
+                    if p == 'std::convert::TryInto::try_into':
+                        continue
+                    if glob_match(p, n):
+                        hit = p
+                        break
+                if hit:
+                    key = n
+                    counts[('call', key)] += 1
+                    out.append(('call', key, counts[('call', key)], c.line, bi))
+                    break
+    return out
